@@ -501,7 +501,7 @@ func runC13Burst(pl *plan.Plan, out *plan.Outcome) {
 		return
 	}
 	if res != "done" && out.Trouble == "" {
-		out.Trouble = "run ended: " + res
+		env.runEnded(res, out)
 		return
 	}
 	if sess == nil || out.Trouble != "" {
@@ -807,7 +807,7 @@ func runC13(pl *plan.Plan, out *plan.Outcome) {
 		return
 	}
 	if res != "done" && out.Trouble == "" {
-		out.Trouble = "run ended: " + res
+		env.runEnded(res, out)
 		return
 	}
 	if sess == nil {
